@@ -218,7 +218,8 @@ def check(recipe) -> list[Fail]:
             elif name == "append_bonds_foreign":
                 mol.append_bonds(bond)
             else:
-                mol.extend_bonds([bond])
+                # any Iterable[Bond]: list, tuple, one-shot generator, iterator
+                mol.extend_bonds([lambda b: [b], lambda b: (b,), lambda b: (x for x in [b]), lambda b: iter([b])][(op[1] + op[2]) % 4](bond))
             model.add(f, None, None)   # adopted without coordinates: any row, but a row
             model.bonds.append(frozenset((id(a), id(f))))
         elif name in ("append_bond_readopt", "append_bond_steal"):
@@ -236,7 +237,7 @@ def check(recipe) -> list[Fail]:
                 donor.add_atom(f, [9.0, 9.0, 9.0])
                 model.donors = getattr(model, 'donors', []) + [donor]
             bond = Bond(a, f) if op[3] else Bond(f, a)
-            [mol.append_bond, lambda b: mol.append_bonds(b), lambda b: mol.extend_bonds([b])][op[2] % 3](bond)
+            [mol.append_bond, lambda b: mol.append_bonds(b), lambda b: mol.extend_bonds(iter([b]) if op[1] % 2 else [b])][op[2] % 3](bond)
             model.atoms.append(f)
             if not any(f is y for y in model.keep):
                 model.keep.append(f)
